@@ -84,6 +84,7 @@ def cases(tier, seed):
         yield {"kind": "random", "seed": seed, "idx": i}
     for i in range(12 if tier == "quick" else 60):
         yield {"kind": "fnarg", "seed": seed, "idx": i}
+    yield {"kind": "multi", "hashseeds": 6 if tier == "quick" else 16}
 
 
 def all_edges(n, form):
@@ -585,6 +586,68 @@ def run_fnarg(case, out, fail):
         out["sample"] = {"how": how, "result": res}
 
 
+# ---------------------------------------------------------------- (D) several packages, one function reached on two paths
+MULTI = {
+    "q0/rootmod.py": "from twosigma.memento import memento_function\nfrom q1.amod import fa\nfrom q2.mmod import fm\n\n"
+                     "@memento_function\ndef root():\n    return fa() + fm()\n",
+    "q1/amod.py": "from twosigma.memento import memento_function\nfrom q2.mmod import fm\n\n@memento_function\ndef fa():\n    return fm()\n",
+    "q1/helpers.py": "from twosigma.memento import memento_function\n\n@memento_function\ndef leaf():\n    return 1\n\n"
+                     "def h1():\n    return leaf()\n",
+    "q2/mmod.py": "from twosigma.memento import memento_function\nfrom q3.xmod import fx\n\n@memento_function\ndef fm():\n    return fx()\n",
+    "q3/xmod.py": "from twosigma.memento import memento_function\nfrom q1.helpers import h1\n\n@memento_function\ndef fx():\n    return h1()\n",
+}
+MULTI_CHILD = """import json, sys, os
+sys.path.insert(0, sys.argv[1])
+from vf import env
+env.set_env(os.path.join(sys.argv[1], "env"), default_storage=env.mem_backend())
+from q0.rootmod import root
+from q3.xmod import fx
+short = lambda f: f.qualified_name_without_version
+out = {}
+for name, fn in (("root", root), ("fx", fx)):
+    g = fn.dependencies()
+    out[name] = {"transitive": sorted(short(f) for f in g.transitive_memento_fn_dependencies()), "version": fn.version()}
+print("VFRESULT " + json.dumps(out))
+"""
+
+
+def run_multi(case, out, fail):
+    """root (package q0) reaches fm (q2) directly and through fa (q1); fm -> fx (q3) -> plain helper of q1 -> leaf (q1).
+    The plain helper belongs to another package than the function that names it (fx): leaf is in nobody's closure,
+    whatever path the walk takes first (the order follows the hash seed)."""
+    with env.Scratch() as sc:
+        root = sc.path("m")
+        for rel, text in MULTI.items():
+            os.makedirs(os.path.dirname(os.path.join(root, rel)), exist_ok=True)
+            open(os.path.join(root, os.path.dirname(rel), "__init__.py"), "a").close()
+            with open(os.path.join(root, rel), "w") as f:
+                f.write(text)
+        script = sc.path("child.py")
+        with open(script, "w") as f:
+            f.write(MULTI_CHILD)
+        seen = {}
+        for hs in range(case["hashseeds"]):
+            rc, so, se = procs.run_python(script, [root], hashseed=hs)
+            line = next((l for l in so.split("\n") if l.startswith("VFRESULT ")), None)
+            if rc != 0 or line is None:
+                fail("computing dependencies of a generated program raises", "several packages, hash seed %d: %s" % (hs, se[-600:]))
+                continue
+            seen[hs] = json.loads(line[len("VFRESULT "):])
+            out["obs"]["multi_package_interpreters"] += 1
+        want = {"root": ["q1.amod:fa", "q2.mmod:fm", "q3.xmod:fx"], "fx": []}
+        for hs, res in sorted(seen.items()):
+            for name in ("root", "fx"):
+                out["obs"]["functions_compared"] += 1
+                if res[name]["transitive"] != want[name]:
+                    fail("transitive memento dependencies differ from reachability in the reference graph",
+                         "several packages (root q0 -> fa q1 -> fm q2 -> fx q3 -> plain helper of q1 -> leaf; root -> fm), hash seed %d: "
+                         "%s reports %s, expected %s" % (hs, name, res[name]["transitive"], want[name]))
+        if len({json.dumps(v, sort_keys=True) for v in seen.values()}) > 1:
+            fail("reported dependencies or versions of an unchanged program differ between hash seeds",
+                 "several packages: %s" % {hs: (v["root"]["transitive"], v["root"]["version"]) for hs, v in sorted(seen.items())})
+        out["nontrivial"].append("multi_package")
+
+
 def run_case(case):
     out = {"viol": [], "nontrivial": [], "obs": collections.Counter()}
 
@@ -592,7 +655,7 @@ def run_case(case):
         if len(out["viol"]) < 6:
             out["viol"].append({"sig": sig, "msg": msg})
 
-    {"small": run_small, "random": run_random, "fnarg": run_fnarg}[case["kind"]](case, out, fail)
+    {"small": run_small, "random": run_random, "fnarg": run_fnarg, "multi": run_multi}[case["kind"]](case, out, fail)
     out["obs"] = dict(out["obs"])
     return out
 
